@@ -51,13 +51,14 @@ class AbstractVector(StructuredRecord):
         """
         downstream = cls.cutter.elucidate()
         upstream = str(Seq(downstream).reverse_complement())
-        return "".join(
-            [
-                upstream.replace("^", ")(").replace("_", "("),
-                "N*",
-                downstream.replace("^", ")(").replace("_", ")"),
-            ]
-        )
+        if cls.cutter.is_3overhang():
+            # the bottom strand mark comes first: swap the roles of the marks
+            upstream = upstream.replace("_", ")(").replace("^", "(")
+            downstream = downstream.replace("_", ")(").replace("^", ")")
+        else:
+            upstream = upstream.replace("^", ")(").replace("_", "(")
+            downstream = downstream.replace("^", ")(").replace("_", ")")
+        return "".join([upstream, "N*", downstream])
 
     def overhang_start(self):
         # type: () -> Seq
